@@ -1,3 +1,7 @@
 From Hannibal Require Import Model.Sys.
 From Hannibal Require Chk.C11 Props.C11.
 Check Props.C11.C11_abandon_only_past_limit : forall tr, accepts tr = true -> Chk.C11.chk_C11 tr = true.
+Check Props.C11.C11_abandoned_exactly_at_the_limit :
+  forall tr s a o s' x, run init tr = Acc s -> step s (EvHEnd a o HAbandoned) = Acc s' ->
+  actors s a = Some x -> a_crashing x = false ->
+  exists d, a_phase x = PhHandle o (Some d) /\ now s = d.
